@@ -60,14 +60,30 @@ mod probe {
                 inputs.push(("map32 size".into(), vec![0xd1, 0x7f, 0xff, 0xff, 0xff, 0, 0, 0, 2, 0x40, 0x40]));
                 inputs.push(("array32 of str32".into(), vec![0xf0, 0x7f, 0xff, 0xff, 0xff, 0, 0, 0, 1, 0xb1, 0x7f, 0xff, 0xff, 0xf0]));
                 inputs.push(("described str32".into(), vec![0x00, 0x53, 0x77, 0xb1, 0x40, 0, 0, 0]));
+                // hostile element COUNTS in front of no elements at all (a count is a field the peer chose, like a size): nothing may be reserved by it
+                for count in [0x0000_ffffu32, 0x0001_0000, 0x00ff_ffff, 0xffff_fffe] {
+                    let c = count.to_be_bytes();
+                    inputs.push((format!("list32 count={:#x}", count), vec![0xd0, 0, 0, 0, 4, c[0], c[1], c[2], c[3]]));
+                    inputs.push((format!("map32 count={:#x}", count), vec![0xd1, 0, 0, 0, 4, c[0], c[1], c[2], c[3]]));
+                    inputs.push((format!("array32 count={:#x}", count), vec![0xf0, 0, 0, 0, 5, c[0], c[1], c[2], c[3], 0x40]));
+                    inputs.push((format!("map32 count={:#x} as the first key of a map", count), vec![0xd1, 0, 0, 0, 13, 0, 0, 0, 2, 0xd1, 0, 0, 0, 4, c[0], c[1], c[2], c[3]]));
+                }
+                inputs.push(("list8 count=255".into(), vec![0xc0, 0x01, 0xff]));
+                inputs.push(("map8 count=254".into(), vec![0xc1, 0x01, 0xfe]));
+                inputs.push(("array8 count=255".into(), vec![0xe0, 0x02, 0xff, 0x40]));
                 for (name, b) in inputs.iter() {
-                    for mode in 0..4 {
+                    for mode in 0..9 {
                         MAX.store(0, Ordering::SeqCst);
                         let which = match mode {
                             0 => { let _: Result<serde_amqp::Value, _> = serde_amqp::from_slice(b); "from_slice::<Value>" }
                             1 => { let _: Result<serde_amqp::Value, _> = serde_amqp::from_reader(&b[..]); "from_reader::<Value>" }
                             2 => { let _: Result<serde_amqp::lazy::LazyValue, _> = serde_amqp::from_slice(b); "from_slice::<LazyValue>" }
-                            _ => { let _: Result<serde_amqp::lazy::LazyValue, _> = serde_amqp::from_reader(&b[..]); "from_reader::<LazyValue>" }
+                            3 => { let _: Result<serde_amqp::lazy::LazyValue, _> = serde_amqp::from_reader(&b[..]); "from_reader::<LazyValue>" }
+                            4 => { let _: Result<serde_amqp::primitives::OrderedMap<serde_amqp::Value, serde_amqp::Value>, _> = serde_amqp::from_slice(b); "from_slice::<OrderedMap<Value, Value>>" }
+                            5 => { let _: Result<Vec<serde_amqp::Value>, _> = serde_amqp::from_slice(b); "from_slice::<Vec<Value>>" }
+                            6 => { let _: Result<serde_amqp::primitives::Array<serde_amqp::Value>, _> = serde_amqp::from_slice(b); "from_slice::<Array<Value>>" }
+                            7 => { let _: Result<std::collections::BTreeMap<serde_amqp::Value, serde_amqp::Value>, _> = serde_amqp::from_reader(&b[..]); "from_reader::<BTreeMap<Value, Value>>" }
+                            _ => { let _: Result<std::collections::HashMap<String, serde_amqp::Value>, _> = serde_amqp::from_slice(b); "from_slice::<HashMap<String, Value>>" }
                         };
                         let m = MAX.load(Ordering::SeqCst);
                         if m > worst { worst = m; worst_case = format!("{} via {} input={:02x?}", name, which, b); }
